@@ -67,7 +67,7 @@ for d, fn, src in (('in', 'htp_connp_REQ_HEADERS', 'htp_request.c'), ('out', 'ht
     UNITS.append(U(name='%s_lookahead_defers' % fn, props=['C03', 'C02'], kind='bounded', src=[src], link=['htp_util.c', 'bstr.c', 'htp_hooks.c', 'htp_list.c'],
                    replay='vin', pre='#define bstr_dup_mem v_model_dup_mem\n#define bstr_add_mem v_model_add_mem', harness=HDR_H.replace('DIR', d).replace('STATE_FN', fn),
                    defs={'quick': {'N': 5}, 'thorough': {'N': 8}}, min_obl=30, timeout=(600, 2400),
-                   flags_add=['--unwind', '8', '--unwinding-assertions'], flags_del=['--unsigned-overflow-check'], solver='--sat-solver cadical',
+                   flags_add=['--unwind', '10', '--unwinding-assertions'], flags_del=['--unsigned-overflow-check'], solver='--sat-solver cadical',
                    bound='header lines of exactly N bytes (quick 5, thorough 8) over all byte values, LF or CRLF ended',
                    sub='L2 at the header-folding look-ahead of %s: a complete header line that ends exactly at the chunk end is kept pending and not processed, because the next chunk may start with a folded continuation' % fn,
                    assumes=['cfg->process_*_header replaced by a counting stub through the function pointer; real line assembly, chomp, folding test, buffer handling',
@@ -77,7 +77,7 @@ for d, fn, src in (('in', 'htp_connp_REQ_HEADERS', 'htp_request.c'), ('out', 'ht
     UNITS.append(U(name='%s_cr_at_chunk_end' % fn, props=['C03', 'C02'], kind='bounded', src=[src], link=['htp_util.c', 'bstr.c', 'htp_hooks.c', 'htp_list.c'],
                    replay='vin', pre='#define bstr_dup_mem v_model_dup_mem\n#define bstr_add_mem v_model_add_mem', harness=HDR_H.replace('DIR', d).replace('STATE_FN', fn),
                    defs={'quick': {'N': 5, 'CR_AT_END': 1}, 'thorough': {'N': 8, 'CR_AT_END': 1}}, min_obl=30, timeout=(600, 2400),
-                   flags_add=['--unwind', '8', '--unwinding-assertions'], flags_del=['--unsigned-overflow-check'], solver='--sat-solver cadical',
+                   flags_add=['--unwind', '10', '--unwinding-assertions'], flags_del=['--unsigned-overflow-check'], solver='--sat-solver cadical',
                    bound='header line prefixes of exactly N bytes (quick 5, thorough 8) ending with CR, no LF inside',
                    sub='L2 at the CR/LF look-ahead of %s: a header line cut between its CR and LF asks for buffering (DATA_BUFFER) with nothing consumed, so that the driver keeps the line; nothing is processed' % fn,
                    assumes=['cfg->process_*_header replaced by a counting stub through the function pointer; real line assembly, chomp, folding test, buffer handling',
